@@ -105,6 +105,11 @@ def proof_stage(prop, tier, log):
     log.append("== gen_consts (%.1fs) rc=%d\n%s" % (dt0, rc0, out0[-3000:]))
     if rc0 != 0:
         res["problems"].append("gen_consts failed (coq/Gen/Consts.v removed): " + out0[-800:])
+    # translator tie, function bodies: regenerate coq/Gen/Funcs.v from the Go source of the tree under test (idempotent)
+    rc0, out0, dt0 = sh(["sh", os.path.join(VERIF, "tools", "gen_funcs.sh")], env=dict(GOENV, VERIF_REPO=REPO), timeout=600)
+    log.append("== gen_funcs (%.1fs) rc=%d\n%s" % (dt0, rc0, out0[-3000:]))
+    if rc0 != 0:
+        res["problems"].append("gen_funcs failed (coq/Gen/Funcs.v removed): " + out0[-800:])
     coq_project()
     targets = [t[:-2] + ".vo" for t in [prop["props_file"]] + prop.get("props_extra", []) + prop.get("extra_coq", [])]
     targets += extract_deps(prop)
